@@ -11,7 +11,11 @@ for d, _, files in os.walk(exp):
         if f.endswith(".go") or f.endswith(".s"):
             tgt = os.path.normpath(os.path.join(repo, rel, "zz_verif_" + f))
             ov[tgt] = os.path.join(d, f)
-extra = os.path.join(build, "overlay_extra.json")
-if os.path.exists(extra):
-    ov.update(json.load(open(extra))["Replace"])
+for name in ("overlay_extra.json", "overlay_sched.json"):
+    extra = os.path.join(build, name)
+    if name == "overlay_sched.json":
+        # the free-running -race pass of C19 is built from the repository's own builder sources
+        json.dump({"Replace": ov}, open(os.path.join(build, "overlay_nosched.json"), "w"), indent=1)
+    if os.path.exists(extra):
+        ov.update(json.load(open(extra))["Replace"])
 json.dump({"Replace": ov}, open(os.path.join(build, "overlay.json"), "w"), indent=1)
